@@ -1,6 +1,6 @@
 (* Check/C18Check.v -- correspondence and oracle for C18 (zero-crossing search). *)
 From PraatIO Require Export Check.Common Textgrid.TgModel Audio.ZeroCross.
-From PraatIO Require Export Textgrid.TgZc.
+From PraatIO Require Export Textgrid.TgZc Textgrid.TgSplice.
 Open Scope Z_scope.
 
 Inductive C18case :=
@@ -8,7 +8,9 @@ Inductive C18case :=
    exact = the time grid is exact in binary64, so implementation and model must agree *)
 | ZC (K : Z) (s : list Z) (t st : Z) (exact : bool) (out : res Z)
 (* tgBoundariesToZeroCrossings: the textgrid that came back *)
-| TgZcC (K : Z) (s : list Z) (st : Z) (adjP adjI : bool) (g : tg) (out : res tg).
+| TgZcC (K : Z) (s : list Z) (st : Z) (adjP adjI : bool) (g : tg) (out : res tg)
+(* audioSplice: the recording (as samples) and the textgrid that came back *)
+| SpliceC (K : Z) (s seg : list Z) (st : Z) (g : tg) (n lab : text) (a : Z) (b : option Z) (align : bool) (out : res (list Z * tg)).
 
 (* does the search for time t end in a tie: a candidate on either side at exactly the same distance?  The recordings of
    the TgZcC cases have non-dyadic rates (the script uses the default step of 0.002 s, a whole number of samples only at
@@ -39,13 +41,41 @@ Definition tier_times (adjP adjI : bool) (t : tier) : list Z :=
   | TP p => if adjP then map ptime (pents p) else []
   end.
 
+Definition splice_tie (K : Z) (s seg : list Z) (st a : Z) (b : option Z) (align : bool) : bool :=
+  align && (zc_tie K seg 0 st || zc_tie K seg (dur K seg) st || zc_tie K s a st
+            || match b with Some x => zc_tie K s x st | None => false end).
+
+Definition out_eqb (x y : list Z * tg) : bool := list_eqb Z.eqb (fst x) (fst y) && tg_eqb (snd x) (snd y).
+
 Definition C18corr (c : C18case) : bool :=
   match c with
   | ZC K s t st exact out => if exact then res_eqb Z.eqb (find_zc K s t st) out else true
   | TgZcC K s st adjP adjI g out =>
       existsb (fun t => zc_tie K s t st) (flat_map (tier_times adjP adjI) (tiers g))
       || res_eqb tg_eqb (tg_zc K s st adjP adjI g) out
+  | SpliceC K s seg st g n lab a b align out =>
+      splice_tie K s seg st a b align || res_eqb out_eqb (splice K s seg st g n lab a b align) out
   end.
+
+Fixpoint prefixb (p l : list Z) : bool :=
+  match p, l with
+  | [], _ => true
+  | x :: p', y :: l' => (x =? y) && prefixb p' l'
+  | _ :: _, [] => false
+  end.
+Fixpoint infixb (p l : list Z) : bool :=
+  prefixb p l || match l with [] => false | _ :: l' => infixb p l' end.
+
+(* the hypotheses of C18_splice_in_step: the textgrid ends with the recording, names unique, every tier well-formed
+   inside the span; without alignment the requested times are sample positions inside the recording *)
+Definition splice_hyp (K : Z) (s : list Z) (g : tg) (a : Z) (b : option Z) (align : bool) : bool :=
+  (0 <? K)
+  && match tgmax g with Some m => m =? dur K s | None => false end
+  && nodupb (names g)
+  && forallb (fun t => tier_validate t && (tmin t <=? 0) && (tmax t <=? dur K s)
+                       && match t with TI i => wf_itierb i | TP p => wf_ptierb p end) (tiers g)
+  && (align || ((a mod K =? 0) && (0 <=? a) && (a <=? dur K s)
+                && match b with Some x => (x mod K =? 0) && (0 <=? x) && (x <=? dur K s) | None => true end)).
 
 Definition C18oracle (c : C18case) : bool :=
   match c with
@@ -85,10 +115,41 @@ Definition C18oracle (c : C18case) : bool :=
              | _, _ => false
              end) (tiers g) (tiers g')
       end
+  | SpliceC K s seg st g n lab a b align out =>
+      (* judged on what came back alone: recording and textgrid end together; the named tier holds an interval with the
+         new label, on sample positions, and the audio under it is a run of the spliced segment (all of it, at the
+         requested place, when nothing was moved to a crossing); the recording grew by that much less the erased region *)
+      match out with
+      | Err _ => true
+      | Ok (s', g') =>
+          if negb (splice_hyp K s g a b align) then
+            (* a requested time between two samples and no alignment: the audio is cut at the nearest sample, the text
+               at the requested time; they stay within one sample of each other *)
+            match tgmax g' with Some m => Z.abs (m - dur K s') <? 2 * K | None => false end
+          else
+          match tgmax g' with Some m => m =? dur K s' | None => false end
+          && match find_tier n (tiers g') with
+             | Some (TI i) =>
+                 existsb (fun e =>
+                   text_eqb (ilabel e) (strip lab) && (istart e mod K =? 0) && (iend e mod K =? 0)
+                   && (let piece := between s' (istart e / K) (iend e / K) in
+                       (Z.of_nat (length piece) * K =? iend e - istart e)
+                       && infixb piece seg
+                       && (if align then true
+                           else list_eqb Z.eqb piece seg
+                                && match b with None => istart e =? a | Some _ => true end))
+                   && match b with
+                      | None => dur K s' =? dur K s + (iend e - istart e)
+                      | Some x => if align then true else dur K s' =? dur K s + (iend e - istart e) - (x - a)
+                      end) (ients i)
+             | _ => false
+             end
+      end
   end.
 
 Definition C18hyp (c : C18case) : bool :=
   match c with
   | ZC K s t st _ _ => (0 <? K) && (0 <=? t) && (t <=? Z.of_nat (length s) * K)
   | TgZcC _ _ _ _ _ _ _ => true
+  | SpliceC K s seg st g n lab a b align _ => splice_hyp K s g a b align
   end.
